@@ -17,6 +17,9 @@ type G struct {
 	ElNames []string
 	AtNames []string
 	StrLits []string
+	// ExtraFuncs lets boolean predicates call normalize-space(), concat() and translate()
+	// besides the functions C02 names (for the checks that are not bound to C02's list).
+	ExtraFuncs bool
 	// NoQuotes keeps quote characters out of the literals taken from document values (C17).
 	NoQuotes bool
 	NumLits  []string
@@ -419,6 +422,18 @@ func (g *G) BoolPred(cands xref.NodeSet, depth int) xast.Expr {
 			a = g.RelPath(cands, 2, 0)
 		} else {
 			a = g.FlatPath(cands)
+		}
+		if g.ExtraFuncs && g.chance(4, "extrafn") {
+			// string functions that build their result in pooled buffers
+			lit := &xast.Str{S: g.pick(g.StrLits, "slit")}
+			switch g.intn(3, "extrakind") {
+			case 0:
+				return &xast.Bin{Op: g.pick(eqOps, "eqop"), L: &xast.Call{Name: "normalize-space", Args: []xast.Expr{a}}, R: lit}
+			case 1:
+				return &xast.Bin{Op: g.pick(eqOps, "eqop"), L: &xast.Call{Name: "concat", Args: []xast.Expr{a, &xast.Str{S: "-"}, &xast.Call{Name: "local-name"}}}, R: lit}
+			default:
+				return &xast.Bin{Op: g.pick(cmpOps, "cop"), L: &xast.Call{Name: "string-length", Args: []xast.Expr{&xast.Call{Name: "translate", Args: []xast.Expr{a, &xast.Str{S: "1t"}, &xast.Str{S: "x"}}}}}, R: &xast.Num{Lit: g.pick(g.NumLits, "nlit")}}
+			}
 		}
 		return &xast.Call{Name: fn, Args: []xast.Expr{a, &xast.Str{S: g.pick(g.StrLits, "slit"), DQ: g.chance(2, "dq")}}}
 	case 9:
